@@ -215,6 +215,7 @@ package wal
 //@ -- immutable sorted map; the greatest key is the unsealed tail.
 //@ -- ------------------------------------------------------------------------
 //@ predicate unsealedSeg(seg) = iszero(seg.SealTime)
+//@ predicate FirstSegMin(s) = smget(s.segments, smmin(s.segments)).MinIndex
 //@ predicate EmptyLog(s) = smmin(s.segments) == smmax(s.segments) && s.tail.last == 0
 //@ -- two map entries describe the same segment (SameInfo: ignoring the cached reader)
 //@ predicate SameInfo(a, b) = a.ID == b.ID && a.BaseIndex == b.BaseIndex && a.MinIndex == b.MinIndex && a.MaxIndex == b.MaxIndex
@@ -304,6 +305,8 @@ package wal
 //@   ensures[C04.head-applied] result == nil && old(LastOf(av(w.s))) >= newMin ==> FirstOf(av(w.s)) == newMin && LastOf(av(w.s)) == old(LastOf(av(w.s)))
 //@   ensures[C04.head-all-removed] result == nil && old(LastOf(av(w.s))) < newMin ==> FirstOf(av(w.s)) == 0 && LastOf(av(w.s)) == 0
 //@   ensures[C04.head-one-commit] result == nil ==> g_commits == old(g_commits) + 1
+//@   ensures[C20.head-count] result == nil ==> counter("head_truncations") == old(counter("head_truncations"))
+//@        + ite(old(FirstOf(av(w.s))) == 0, 0, ite(newMin > old(LastOf(av(w.s))), old(LastOf(av(w.s))) - old(FirstOf(av(w.s))) + 1, newMin - old(FirstOf(av(w.s)))))
 //@   ensures[C10.published-only-on-success] result != nil ==> av(w.s) == old(av(w.s))
 //@   ensures result != nil ==> g_commits == old(g_commits) || g_commits == old(g_commits) + 1
 //@ func (*WAL).truncateTailLocked
@@ -317,6 +320,7 @@ package wal
 //@   ensures[C03.published-state-wf] av(w.s) != nil && WFS(av(w.s))
 //@   ensures[C04.tail-applied] result == nil ==> FirstOf(av(w.s)) == old(FirstOf(av(w.s))) && LastOf(av(w.s)) == newMax
 //@   ensures[C04.tail-one-commit] result == nil ==> g_commits == old(g_commits) + 1
+//@   ensures[C20.tail-count] result == nil ==> counter("tail_truncations") == old(counter("tail_truncations")) + (old(LastOf(av(w.s))) - newMax)
 //@   ensures[C10.published-only-on-success] result != nil ==> av(w.s) == old(av(w.s))
 //@   ensures result != nil ==> g_commits == old(g_commits) || g_commits == old(g_commits) + 1
 
@@ -474,6 +478,10 @@ package wal
 //@   loop 1 invariant itvalid(it) && !old(EmptyLog(newState)) ==> newMin >= itcur(it)
 //@   loop 1 invariant forall k uint64 :: {smhas(old(newState.segments), k)} smhas(old(newState.segments), k) && (!itvalid(it) || k < itcur(it))
 //@        ==> ite(unsealedSeg(smget(old(newState.segments), k)), old(LastOf(newState)), smget(old(newState.segments), k).MaxIndex) < newMin
+//@   loop 1 invariant itvalid(it) ==> nTruncated == ite(itcur(it) == old(smmin(newState.segments)), 0, itcur(it) - old(FirstSegMin(newState)))
+//@   loop 1 invariant !itvalid(it) ==> nTruncated == ite(old(EmptyLog(newState)), 0, old(LastOf(newState)) - old(FirstSegMin(newState)) + 1)
+//@   ensures[C20.head-count] result2 == nil ==> counter("head_truncations") == old(counter("head_truncations"))
+//@        + ite(old(EmptyLog(newState)), 0, ite(newMin > old(LastOf(newState)), old(LastOf(newState)) - old(FirstSegMin(newState)) + 1, newMin - old(FirstSegMin(newState))))
 //@   ensures[C04.head-applied] result2 == nil && old(LastOf(newState)) >= newMin ==> smnonempty(newState.segments) && smget(newState.segments, smmin(newState.segments)).MinIndex == newMin
 //@        && smmax(newState.segments) == old(smmax(newState.segments)) && (newState.tail.last == 0 ==> smmin(newState.segments) != smmax(newState.segments)) && result1 == nil
 //@   ensures[C04.head-all-removed] result2 == nil && old(LastOf(newState)) < newMin ==> smnonempty(newState.segments) && smmin(newState.segments) == smmax(newState.segments)
@@ -499,6 +507,8 @@ package wal
 //@   loop 1 invariant newState.tail.sealed == old(newState.tail.sealed)
 //@   ensures[C04.tail-applied] result2 == nil ==> result1 != nil && smmax(newState.segments) == newMax + 1 && smmin(newState.segments) == old(smmin(newState.segments))
 //@        && smget(newState.segments, smmin(newState.segments)).MinIndex == old(smget(newState.segments, smmin(newState.segments)).MinIndex)
+//@   loop 1 invariant itvalid(it) ==> nTruncated == ite(itcur(it) == old(smmax(newState.segments)), 0, old(LastOf(newState)) - smget(old(newState.segments), itcur(it)).MaxIndex)
+//@   ensures[C20.tail-count] result2 == nil ==> counter("tail_truncations") == old(counter("tail_truncations")) + (old(LastOf(newState)) - newMax)
 //@   ensures[C13.tail-fresh-id] result2 == nil ==> newState.nextSegmentID == old(newState.nextSegmentID) + 1 && smget(newState.segments, smmax(newState.segments)).ID == old(newState.nextSegmentID)
 
 //@ -- rotation under the write lock (called by the background goroutine once the
